@@ -303,9 +303,59 @@ def small_games(ctx, I, n_cases, budget):
             break
 
 
+def model_utility_efficiency(ctx, I, n_cases):
+    """`bruteforce` and untruncated `montecarlo` with a REAL model utility (`SklearnModelUtility` around a 1-NN classifier) whose metric is a negated loss (values <= 0) or a
+    shifted accuracy: the scores sum to the utility of the whole training set minus the null utility = the WORST constant prediction of a training class, both recomputed here
+    with fractions (own 1-NN rule, own metric, minimum over all training classes)."""
+    from sklearn.neighbors import KNeighborsClassifier
+    U = I["utility"]
+    rng = ctx.rng
+    for it in range(n_cases):
+        n = rng.randint(3, 6)
+        c = rng.randint(2, 4)
+        pool = sorted(rng.sample(range(0, 9), c))
+        y = [pool[i % c] for i in range(n)]
+        rng.shuffle(y)
+        m = rng.randint(2, 6)
+        yv = [rng.choice(pool) for _ in range(m)]
+        xs = rng.sample(range(-40, 41), n + m)            # pairwise distinct 1-D features: no distance ties
+        X = np.array(xs[:n], dtype=float).reshape(-1, 1)
+        Xv = np.array(xs[n:], dtype=float).reshape(-1, 1)
+        kind = ["neg_mae", "neg_zero_one", "accuracy_minus_half"][it % 3]
+
+        def metric_f(yt, yp):          # exact
+            yt, yp = [int(a) for a in yt], [int(a) for a in yp]
+            if kind == "neg_mae":
+                return -Fraction(sum(abs(a - b) for a, b in zip(yt, yp)), len(yt))
+            if kind == "neg_zero_one":
+                return -Fraction(sum(1 for a, b in zip(yt, yp) if a != b), len(yt))
+            return Fraction(sum(1 for a, b in zip(yt, yp) if a == b), len(yt)) - Fraction(1, 2)
+
+        def metric(y_true, y_pred, **kw):
+            return float(metric_f(np.asarray(y_true).tolist(), np.asarray(y_pred).tolist()))
+        pred = [y[min(range(n), key=lambda i: abs(xs[i] - xs[n + j]))] for j in range(m)]
+        full = metric_f(yv, pred)
+        null = min(metric_f(yv, [cl] * m) for cl in sorted(set(y)))
+        for method in ("bruteforce", "montecarlo"):
+            kw = dict(mc_iterations=rng.randint(1, 6), mc_timeout=0, mc_truncation_steps=0, seed=rng.randrange(1000)) if method == "montecarlo" else {}
+            case = dict(kind="model utility", metric=kind, method=method, X=xs[:n], y=y, Xv=xs[n:], yv=yv, kw=kw, full=str(full), null=str(null))
+            ctx.case(case, nontrivial=(len(set(y)) >= 2 and full != null), sample=(case if it < 3 else None), kind="model_utility", metric=kind, method=method)
+            try:
+                util = U.SklearnModelUtility(KNeighborsClassifier(1), metric)
+                imp = I["imp"].ShapleyImportance(method=method, utility=util, **kw)
+                res = [float(v) for v in imp.fit(X, np.array(y)).score(Xv, np.array(yv))]
+            except Exception as e:  # noqa
+                ctx.mismatch("score() raised", case, impl=exc_name(e) + repr(e))
+                continue
+            if abs(Fraction(sum(res)) - (full - null)) > Fraction(1, 10 ** 9):
+                ctx.mismatch("%s scores under a model utility do not sum to full-data utility minus null utility (worst constant prediction of a training class)" % method, case,
+                             impl=sum(res), spec=str(full - null))
+
+
 def run(ctx):
     I = load_impl(ctx)
     q = ctx.tier == "quick"
+    model_utility_efficiency(ctx, I, 9 if q else 60)
     if q:
         sizes = [(200, 20), (300, 25), (500, 30), (800, 40), (1000, 50), (2000, 50), (16385 + ctx.rng.randrange(1, 5000), 12)]      # the last one: beyond 2^14 rows
     else:
